@@ -6,7 +6,7 @@ from vrun import H, VERIF
 def _load(pid):
     sp = importlib.util.spec_from_file_location('spec_for_c03_' + pid, os.path.join(VERIF, 'harness', pid, 'spec.py'))
     m = importlib.util.module_from_spec(sp); sp.loader.exec_module(m); return m
-_c09 = _load('C09'); _c14 = _load('C14')
+_c09 = _load('C09'); _c14 = _load('C14'); _c05 = _load('C05')
 def _pick(mod, name, newname):
     h = copy.copy([x for x in mod.HARNESSES if x.name == name][0]); h.name = newname; return h
 LEVEL_TEXT = ('Bounded model checking of the value readers of the Part 21 reader (IR-translated real code): every attribute text within the byte bound that is NOT in the '
@@ -19,11 +19,12 @@ HARNESSES = [
   _pick(_c09, 'enum_generic3', 'undeclared_enum_item'),
   _pick(_c09, 'enum_boolean', 'bad_boolean'),
   _pick(_c14, 'entity_ref', 'dangling_reference'),
+  _pick(_c05, 'skip_instance', 'resync_skip_instance'),   # confinement: the record the reader gives up on is skipped up to its own semicolon, the next record starts there
 ]
 JOBS = 8
 MANIFEST = {
   'level_text': 'Bounded model checking of the per-value readers: for every attribute text within the byte bound, a value outside the grammar of its kind (wrong literal kind, undeclared enumeration item, unterminated string, reference to a non-existent instance) is never reported clean, and the reader stops at the delimiter so the neighbouring attributes are read from the right place. Token/attribute level only.',
-  'level_note': 'Trusted: as C09/C14 (CBMC, ir2c, vstd, harness instance-manager double). Outside the claim: arity checks and recovery in SDAI_Application_instance::STEPread, unknown/abstract entity keywords (Registry), duplicate ids and SkipInstance resynchronisation in STEPfile, SELECT and complex parts, the exit status of p21read.',
+  'level_note': 'Trusted: as C09/C14 (CBMC, ir2c, vstd, harness instance-manager double). Outside the claim: arity checks and recovery in SDAI_Application_instance::STEPread, unknown/abstract entity keywords (Registry), duplicate ids, the callers of SkipInstance (the routine itself: resync_skip_instance), resynchronisation in STEPfile, SELECT and complex parts, the exit status of p21read.',
   'technique': 'CBMC bounded model checking of the IR-translated literal and reference readers against reference grammars (shared harnesses with C09/C14)',
   'design_ref': 'DESIGN.md section 2, C03',
 }
